@@ -3,7 +3,8 @@ C36 — chain state survives a crash at any write: the property theorems.
 
 Everything is about `run cfg ops`, the node obtained from the genesis node by ANY list of scenario operations
 (imports with state tries on any parent, finalisations of any block with any round / set id, scheduled and
-forced authority changes, latest-round updates — failing operations included), and about EVERY prefix of the
+forced authority changes, BABE next-epoch data / config announcements and their finalisation, justifications,
+prevotes / precommits, own-round finalisations, latest-round updates — failing operations included), and about EVERY prefix of the
 write log it produced, replayed on the genesis database (`base`).
 -/
 import Gossamer.Lib.C36Node
@@ -164,11 +165,124 @@ theorem C36_finalised_atomic (ops : List Op) (op : Op) (i : Nat) :
   rw [hcr, hd]
   exact hrs_atomic seg n.db i hc
 
+/-! ### the epoch tables: no announced next-epoch data / config is lost by a crash -/
+
+theorem take_succ_of_get {l : List Entry} {k : Nat} {e : Entry} (h : l[k]? = some e) :
+    l.take (k + 1) = l.take k ++ [e] := by
+  rw [List.take_succ, h]; rfl
+
+/-- the part of the log between two crash points is a safe segment on the earlier crash database -/
+theorem keeps_between (ops : List Op) (k1 k2 : Nat) (h : k1 ≤ k2) :
+    Keeps (replay base ((run {} ops).log.take k1)) (replay base ((run {} ops).log.take k2)) := by
+  have hs := SafeSeg.take k2 (run_safe ops).2.1
+  have hsplit : (run {} ops).log.take k2 =
+      (run {} ops).log.take k1 ++ ((run {} ops).log.take k2).drop k1 := by
+    have : (run {} ops).log.take k1 = ((run {} ops).log.take k2).take k1 := by
+      rw [List.take_take, Nat.min_eq_left h]
+    rw [this, List.take_append_drop]
+  rw [hsplit] at hs ⊢
+  rw [replay_append]
+  exact keeps_replay (SafeSeg.drop hs)
+
+/-- **Epoch data.** Once the put of an announced NextEpochData (key nextepochdata<epoch>:<hash>, written by
+    HandleBABEDigest at import) is durable, every later crash point still has it on disk — where NewEpochState
+    restores it into the in-memory map — or has the persisted definition (epochinfo) of the same or a later
+    epoch: the finalisation handler writes the definition BEFORE it deletes the announcements. -/
+theorem C36_epoch_data_not_lost (ops : List Op) (k1 k2 e h : Nat) (hk : k1 < k2)
+    (hput : (run {} ops).log[k1]? = some (.put (.ned e h))) :
+    NedOK (replay base ((run {} ops).log.take k2)) e h := by
+  have h1 : NedOK (replay base ((run {} ops).log.take (k1 + 1))) e h := by
+    rw [take_succ_of_get hput, replay_append]
+    exact Or.inl (by simp [replay, DB.apply, DB.write])
+  exact (keeps_between ops (k1 + 1) k2 hk).nedok e h h1
+
+/-- the same for announced NextConfigData and the persisted configuration (configinfo) -/
+theorem C36_config_data_not_lost (ops : List Op) (k1 k2 e h : Nat) (hk : k1 < k2)
+    (hput : (run {} ops).log[k1]? = some (.put (.ncd e h))) :
+    NcdOK (replay base ((run {} ops).log.take k2)) e h := by
+  have h1 : NcdOK (replay base ((run {} ops).log.take (k1 + 1))) e h := by
+    rw [take_succ_of_get hput, replay_append]
+    exact Or.inl (by simp [replay, DB.apply, DB.write])
+  exact (keeps_between ops (k1 + 1) k2 hk).ncdok e h h1
+
+/-- justifications, prevotes and precommits are never removed: durable at one crash point, durable at every
+    later one -/
+theorem C36_votes_durable (ops : List Op) (k1 k2 : Nat) (hk : k1 ≤ k2) :
+    let d1 := replay base ((run {} ops).log.take k1)
+    let d2 := replay base ((run {} ops).log.take k2)
+    (∀ h, d1.jcp h = true → d2.jcp h = true) ∧ (∀ r s, d1.pv r s = true → d2.pv r s = true) ∧
+    (∀ r s, d1.pc r s = true → d2.pc r s = true) :=
+  ⟨(keeps_between ops k1 k2 hk).jcp, (keeps_between ops k1 k2 hk).pv, (keeps_between ops k1 k2 hk).pc⟩
+
+/-- **Own-round finalisation (lib/grandpa `finalise`).** At every crash point inside a `gfin id r s` operation:
+    if the finalised-hash key of (r, s) has changed, then the justification of the block and the prevotes and
+    precommits of the round are already durable — they are written before SetFinalisedHash. -/
+theorem C36_own_round_justified (ops : List Op) (id r s i : Nat) :
+    let n := run {} ops
+    let n' := step {} n (.gfin id r s)
+    let crashed := replay base (n'.log.take (n.log.length + i))
+    crashed.fin r s ≠ n.db.fin r s →
+      crashed.jcp id = true ∧ crashed.pv r s = true ∧ crashed.pc r s = true := by
+  intro n n' crashed hne
+  obtain ⟨hi, _, hdb⟩ := run_safe ops
+  -- the three puts, then the rest of the operation
+  let n3 := ((n.put (.jcp id)).put (.pv r s)).put (.pc r s)
+  have s3 : Step n n3 0 :=
+    ((Step.put (w := .jcp id) (fun _ => trivial)).trans (Step.put (w := .pv r s) (fun _ => trivial))).trans
+      (Step.put (w := .pc r s) (fun _ => trivial))
+  have hrest : ∃ seg, n'.log = n3.log ++ seg ∧ SafeSeg n3.db seg := by
+    show ∃ seg, (step {} n (.gfin id r s)).log = n3.log ++ seg ∧ SafeSeg n3.db seg
+    simp only [step, step?, doGfin]
+    split
+    · exact ⟨[], by simp [n3], trivial⟩
+    · have s4 := doFin_step n3 id r s (s3 hi).1
+      generalize doFin {} n3 id r s = res at s4
+      obtain ⟨n4, ok, str⟩ := res
+      obtain ⟨i4, seg, hl, hd4, hs, _⟩ := s4
+      have hl' : n4.log = n3.log ++ seg := hl
+      have hd4' : n4.db = replay n3.db seg := hd4
+      cases ok with
+      | false => exact ⟨seg, hl, hs⟩
+      | true =>
+        obtain ⟨_, seg5, hl5, _, hs5, _⟩ := (Step.put (n := n4) (w := .lfr r) (fun _ => trivial)) i4
+        refine ⟨seg ++ seg5, ?_, SafeSeg.append hs ?_⟩
+        · show (n4.put (.lfr r)).log = _
+          rw [hl5, hl', List.append_assoc]
+        · rw [← hd4']; exact hs5
+  obtain ⟨seg, hl, hs⟩ := hrest
+  have hlog3 : n3.log = n.log ++ [.put (.jcp id), .put (.pv r s), .put (.pc r s)] := by
+    simp [n3, Node.put, Node.emit]
+  have hcr : crashed = replay n.db (([Entry.put (.jcp id), .put (.pv r s), .put (.pc r s)] ++ seg).take i) := by
+    show replay base (n'.log.take (n.log.length + i)) = _
+    rw [hl, hlog3, List.append_assoc, List.take_append, replay_append,
+      List.take_of_length_le (Nat.le_add_right ..), ← hdb]
+    simp
+    rfl
+  by_cases h3 : i ≤ 3
+  · exfalso
+    apply hne
+    rw [hcr]
+    have : i = 0 ∨ i = 1 ∨ i = 2 ∨ i = 3 := by omega
+    rcases this with rfl | rfl | rfl | rfl <;> simp [replay, DB.apply, DB.write]
+  · have hi3 : ([Entry.put (.jcp id), .put (.pv r s), .put (.pc r s)] ++ seg).take i =
+        [Entry.put (.jcp id), .put (.pv r s), .put (.pc r s)] ++ seg.take (i - 3) := by
+      rw [List.take_append]
+      have : List.take i [Entry.put (.jcp id), .put (.pv r s), .put (.pc r s)] =
+          [Entry.put (.jcp id), .put (.pv r s), .put (.pc r s)] :=
+        List.take_of_length_le (by simp; omega)
+      rw [this]; rfl
+    have hdb3 : n3.db = replay n.db [Entry.put (.jcp id), .put (.pv r s), .put (.pc r s)] := by
+      simp [n3, Node.put, Node.emit, replay]
+    rw [hcr, hi3, replay_append, ← hdb3]
+    have k := keeps_replay (SafeSeg.take (i - 3) hs)
+    refine ⟨k.jcp _ ?_, k.pv _ _ ?_, k.pc _ _ ?_⟩ <;>
+      simp [n3, Node.put, Node.emit, DB.apply, DB.write]
+
 /-! ### the write order before the repair -/
 
 /-- the scenario of the defect: block 1 carries a scheduled change (delay 0, authorities 5) and is finalised
     in round 1 -/
-def defectOps : List Op := [.imp 1 0 0 1 (some (.sc 0 5)), .fin 1 1 0]
+def defectOps : List Op := [.imp 1 0 0 1 (some (.sc 0 5)) false false, .fin 1 1 0]
 
 /-- With the order the code had (IncrementSetID, then setAuthorities, then setChangeSetIDAtBlock) a crash
     right after the ninth write of this scenario — the new current set id — restarts with a current set id 1
@@ -199,7 +313,7 @@ example : (run {} defectOps).log.drop 8 = [.put (.auth 1 5), .put (.change 1 1),
     set lowers the stored "highest" round (this is the behaviour of a completed operation, not of a crash;
     `C36_finalised_atomic` is therefore stated relative to the operation's own result) -/
 theorem C36_round_not_monotone :
-    (run {} [.imp 1 0 0 1 none, .fin 1 5 0, .imp 2 1 0 2 none, .fin 2 3 0]).db.hrs = some (3, 0) := by
+    (run {} [.imp 1 0 0 1 none false false, .fin 1 5 0, .imp 2 1 0 2 none false false, .fin 2 3 0]).db.hrs = some (3, 0) := by
   decide
 
 end Gossamer.C36
